@@ -231,7 +231,7 @@ fn part(in_order: bool) -> HistPart<Mon, impl Fn(&Setup) -> Mon + Sync> {
         name: if in_order { "deadline-order" } else { "any-order" },
         sp,
         p,
-        cases_quick: 25_000,
+        cases_quick: 75_000,
         cases_thorough: 1_500_000,
         mk: move |s: &Setup| Mon::new(in_order, s.codec, &s.cfg),
     }
